@@ -406,8 +406,22 @@ impl Scenario for C13Histories {
                         st.graveyard.remove(&i.name);
                     }
                     st.model.extend(items.iter().cloned());
-                    guarded(cx, "no-panic", &desc, || st.list.extend(items))?;
-                    abstract_seq.push_str(&format!("E{n};"));
+                    // the iterator handed to extend() need not know its length: exact (Vec), lower bound 0 (filter),
+                    // exact part + unknown part (chain with from_fn), a wrong upper bound (take of a longer chain)
+                    let shape = cx.tape.draw(4);
+                    guarded(cx, "no-panic", &desc, || match shape {
+                        0 => st.list.extend(items),
+                        1 => st.list.extend(items.into_iter().filter(|_| true)),
+                        2 => {
+                            let mut rest = items.split_off(items.len() / 2).into_iter();
+                            st.list.extend(items.into_iter().chain(std::iter::from_fn(move || rest.next())));
+                        }
+                        _ => {
+                            let k = items.len();
+                            st.list.extend(items.into_iter().chain(std::iter::repeat_with(|| unreachable!("taken beyond the real items"))).take(k));
+                        }
+                    })?;
+                    abstract_seq.push_str(&format!("E{n}{};", ["", "f", "c", "t"][shape as usize]));
                 }
                 "clear" => {
                     desc = "clear()".to_string();
@@ -423,8 +437,9 @@ impl Scenario for C13Histories {
                 "collect" => {
                     desc = "collect() [rebuild through FromIterator]".to_string();
                     let old = std::mem::take(&mut st.list);
-                    st.list = guarded(cx, "no-panic", &desc, || old.into_iter().collect::<ItemList<Item>>())?;
-                    abstract_seq.push_str("F;");
+                    let filtered = cx.tape.chance(1, 2);
+                    st.list = guarded(cx, "no-panic", &desc, || if filtered { old.into_iter().filter(|_| true).collect::<ItemList<Item>>() } else { old.into_iter().collect::<ItemList<Item>>() })?;
+                    abstract_seq.push_str(if filtered { "Ff;" } else { "F;" });
                 }
                 "clone" => {
                     desc = "clone()".to_string();
